@@ -1,16 +1,16 @@
 #!/bin/bash
-# tools/verify_seeded.sh Cxx mN : confirm a seeded change in its scratch worktree /tmp/mut/Cxx:
-# applies, builds, unit tests pass, demo fails with the change and passes without. Writes /tmp/mut/out/Cxx/mN/verify.json
-id=$1; m=$2; wt=/tmp/mut/$id; out=/tmp/mut/out/$id/$m
+# tools/verify_seeded.sh <base> Cxx mN [patchfile]: confirm a seeded change in its scratch worktree <base>/Cxx:
+# applies, builds, unit tests pass, demo fails with the change and passes without. Writes <base>/out/Cxx/mN/verify.json
+base=$1; id=$2; m=$3; wt=$base/$id; out=$base/out/$id/$m; patch=${4:-$out/patch.diff}
 cd $wt || exit 2
-git checkout -q -- . ; 
-res() { echo "{\"id\":\"$id\",\"m\":\"$m\",\"applies\":$1,\"builds\":$2,\"tests_pass\":$3,\"demo_fails_with_change\":$4,\"demo_passes_pristine\":$5}" > $out/verify.json; }
-git apply $out/patch.diff || { res false false false false false; exit 1; }
+git checkout -q -- . ;
+res() { echo "{\"id\":\"$id\",\"m\":\"$m\",\"head\":\"$(git rev-parse --short HEAD)\",\"patch\":\"$(basename $patch)\",\"applies\":$1,\"builds\":$2,\"tests_pass\":$3,\"demo_fails_with_change\":$4,\"demo_passes_pristine\":$5}" > $out/verify.json; }
+git apply $patch || { res false false false false false; exit 1; }
 cmake --build _build -j4 >/dev/null 2>&1 || { git checkout -q -- .; res true false false false false; exit 1; }
-t=false; ./_build/ninja_test >/tmp/mut/out/$id/$m/test.log 2>&1 && t=true
-d1=false; (cd $out && timeout 600 bash ./demo.sh $wt >$out/demo_changed.log 2>&1) || d1=true
+t=false; td=$(mktemp -d); (cd $td && $wt/_build/ninja_test >$out/test.log 2>&1) && t=true; rm -rf $td
+d1=false; (cd $out && timeout 900 bash ./demo.sh $wt >$out/demo_changed.log 2>&1) || d1=true
 git checkout -q -- .
 cmake --build _build -j4 >/dev/null 2>&1
-d2=false; (cd $out && timeout 600 bash ./demo.sh $wt >$out/demo_pristine.log 2>&1) && d2=true
+d2=false; (cd $out && timeout 900 bash ./demo.sh $wt >$out/demo_pristine.log 2>&1) && d2=true
 res true true $t $d1 $d2
 cat $out/verify.json
